@@ -79,11 +79,12 @@ pub fn random_bytes(rng: &mut Rng) -> Vec<u8> {
 /// a global type assignment for the universe (so that layers never disagree on the type of a
 /// path) and per-layer parent-closed subsets of it
 pub fn gen_layers(rng: &mut Rng, n_layers: usize, populate_upper: bool) -> Vec<Content> {
-    // types: paths that have universe children are directories
     let mut is_dir: BTreeMap<&str, bool> = BTreeMap::new();
     for p in universe().iter().skip(1) {
         let has_child = universe().iter().any(|q| parent_of(q) == **p && !q.is_empty());
-        is_dir.insert(p, has_child || rng.chance(1, 3));
+        // mostly directories where the universe has children below, but sometimes a FILE there: a
+        // lower-layer file with universe paths below it is where "calls below a file" meet an adapter
+        is_dir.insert(p, if has_child { rng.chance(4, 5) } else { rng.chance(1, 3) });
     }
     let mut layers = vec![];
     for li in 0..n_layers {
@@ -440,6 +441,29 @@ fn typ_of(snap: &BTreeMap<String, Obs>, p: &str) -> char {
 /// state-aware generator of the next operation; `snap` is the implementation's last snapshot
 pub fn gen_op(rng: &mut Rng, ts: &TreeSpec, snap: &BTreeMap<String, Obs>, cfg: &Cfg) -> Op {
     let uni: Vec<&str> = universe().iter().cloned().filter(|p| ts.root_calls || !p.is_empty()).collect();
+    // emptying: now and then remove an existing leaf entry (a file, or a directory without existing
+    // children) with the right call, so that directories become empty again after overwrites and
+    // re-creations and their removal is exercised in that state
+    if rng.chance(1, 12) {
+        // overwrite an existing file (create_file over a file)
+        let files: Vec<&str> = uni.iter().cloned().filter(|p| typ_of(snap, p) == 'F').collect();
+        if !files.is_empty() {
+            let p = *rng.pick(&files[..]);
+            return Op { name: "write", path: p.to_string(), bytes: Some(random_bytes(rng)), dest: None, time: None };
+        }
+    }
+    if rng.chance(1, 5) {
+        let leaves: Vec<&str> = uni
+            .iter()
+            .cloned()
+            .filter(|p| !p.is_empty() && typ_of(snap, p) != 'A' && !uni.iter().any(|q| parent_of(q) == *p && typ_of(snap, q) != 'A'))
+            .collect();
+        if !leaves.is_empty() {
+            let p = *rng.pick(&leaves[..]);
+            let name = if typ_of(snap, p) == 'D' { "remove_dir" } else { "remove_file" };
+            return Op { name, path: p.to_string(), bytes: None, dest: None, time: None };
+        }
+    }
     for _attempt in 0..200 {
         let p = rng.pick(&uni[..]).to_string();
         let t = typ_of(snap, &p);
@@ -491,11 +515,18 @@ pub fn gen_op(rng: &mut Rng, ts: &TreeSpec, snap: &BTreeMap<String, Obs>, cfg: &
             "remove_dir" | "read_dir" | "walk" | "copy_dir" | "move_dir" | "remove_dir_all" => t == 'F',
             _ => false,
         };
-        if wrong_type && !ts.wrong_type_calls {
+        // C01 (and its adapter parts C07, C09): "target has the right type" is a precondition of the
+        // contract, so a PRIMITIVE call of the wrong type is in scope (it must fail and change
+        // nothing); only transfers with a wrong-type source and remove_dir_all of a file are left
+        // unspecified
+        let prim_wrong_ok = matches!(ts.prop.as_str(), "C01" | "C07" | "C09") && matches!(name, "write" | "touch" | "append" | "remove_file" | "read" | "read_to_string" | "remove_dir" | "read_dir" | "walk") && rng.chance(1, 2);
+        if wrong_type && !ts.wrong_type_calls && !prim_wrong_ok {
             continue;
         }
-        // calls below a file or below a missing directory: allowed, but rarer
-        if par_t != 'D' && rng.chance(2, 3) {
+        // calls below a file or below a missing directory: allowed, but rarer; below a FILE they
+        // are kept more often (a failed call there must not turn the file into a directory — the
+        // overlay's parent materialisation is where that went wrong, finding O10)
+        if (par_t == 'A' && rng.chance(2, 3)) || (par_t == 'F' && rng.chance(1, 3)) {
             continue;
         }
         if p.is_empty() && matches!(name, "create_dir" | "write" | "touch" | "append" | "remove_file" | "remove_dir" | "remove_dir_all" | "move_dir" | "move_file" | "copy_file") && !ts.root_calls {
@@ -565,7 +596,23 @@ pub struct Run {
 pub fn run_impl(world: &mut RWorld, cfg: Cfg, ts: &TreeSpec, rng: &mut Rng, n_ops: usize, fixed_ops: Option<Vec<Op>>) -> Run {
     let mut lines = vec![Line { who: Who::Both, text: "reset".into(), step: usize::MAX, role: "cfg" }];
     lines.extend(cfg.lines.iter().cloned());
+    if ts.preds.contains(&"time-roundtrip") {
+        if let Some(up) = cfg.overlay_upper {
+            // C19 on overlays: entries of the lower layer get explicit, distinct timestamps (set
+            // directly on the layer), so that "the other timestamps are left alone" and "adapters
+            // report the timestamps of the entry they serve" are observable for lower-layer entries
+            let lower = if cfg.kind == "ovl(alt,alt)" { up + 2 } else { up + 1 };
+            for (k, p) in universe().iter().enumerate().skip(1) {
+                let t0 = 3_000_000_000_000_000_000i128 + (k as i128) * 1_000_000_007;
+                lines.push(Line { who: Who::Both, text: format!("op {} set_atime {} {}", lower, enc_str(p), t0 + 1), step: usize::MAX, role: "cfg" });
+                lines.push(Line { who: Who::Both, text: format!("op {} set_mtime {} {}", lower, enc_str(p), t0 + 2), step: usize::MAX, role: "cfg" });
+            }
+        }
+    }
     let uni = walk_universe();
+    // C19: the snapshots must not open files (MemoryFS::open_file stamps the access time, which
+    // would make "the other timestamps are left alone" unobservable for the access time)
+    let snapc = if ts.preds.contains(&"time-roundtrip") { "snapm" } else { "snap" };
     let mut impl_out: Vec<Option<String>> = vec![];
     for l in &lines {
         impl_out.push(if l.who != Who::Model { Some(world.exec(&l.text)) } else { None });
@@ -577,8 +624,8 @@ pub fn run_impl(world: &mut RWorld, cfg: Cfg, ts: &TreeSpec, rng: &mut Rng, n_op
         o
     };
     // initial snapshot (step 0 = before any op)
-    let s0 = push(world, &mut lines, &mut impl_out, Line { who: Who::Both, text: format!("snap {} {}", cfg.target, uni), step: 0, role: "snap" }).unwrap();
-    push(world, &mut lines, &mut impl_out, Line { who: Who::Model, text: format!("snap {} {}", cfg.spec, uni), step: 0, role: "specsnap" });
+    let s0 = push(world, &mut lines, &mut impl_out, Line { who: Who::Both, text: format!("{} {} {}", snapc, cfg.target, uni), step: 0, role: "snap" }).unwrap();
+    push(world, &mut lines, &mut impl_out, Line { who: Who::Model, text: format!("{} {} {}", snapc, cfg.spec, uni), step: 0, role: "specsnap" });
     push(world, &mut lines, &mut impl_out, Line { who: Who::Both, text: format!("op {} walk s", cfg.target), step: 0, role: "walk" });
     let mut snap = parse_snap(&s0);
     let mut ops = vec![];
@@ -629,6 +676,15 @@ pub fn run_impl(world: &mut RWorld, cfg: Cfg, ts: &TreeSpec, rng: &mut Rng, n_op
                 }
             }
         };
+        // physical backends: an open handle follows its inode through unlink and rename, while the
+        // model addresses the file by path; while a handle is open nothing on its path (or on an
+        // ancestor) is removed, renamed or re-created there — what the host does to open, unlinked
+        // files is the host's business (memory-backed configurations keep the full treatment)
+        let op = if handle_open && cfg.name.contains("phys") && !op.is_observer() && !matches!(op.name, "hwrite" | "hdrop" | "hcreate" | "happend") && (ancestors_or_descendants(&op.path, &handle_path) || op.dest.as_ref().map(|d| ancestors_or_descendants(d, &handle_path)).unwrap_or(false)) {
+            Op { name: "exists", path: op.path.clone(), bytes: None, dest: None, time: None }
+        } else {
+            op
+        };
         let step = i + 1;
         // timestamps before/after: setters, and (C19) append, which must preserve the creation time
         let is_setter = op.name.starts_with("set_") || (ts.preds.contains(&"time-roundtrip") && op.name == "append");
@@ -644,8 +700,8 @@ pub fn run_impl(world: &mut RWorld, cfg: Cfg, ts: &TreeSpec, rng: &mut Rng, n_op
             push(world, &mut lines, &mut impl_out, Line { who: Who::Both, text: format!("op {} metadata_t {}", cfg.target, enc_str(&op.path)), step, role: "tafter" });
         }
         push(world, &mut lines, &mut impl_out, Line { who: Who::Model, text: op.line(cfg.spec), step, role: "specop" });
-        let s = push(world, &mut lines, &mut impl_out, Line { who: Who::Both, text: format!("snap {} {}", cfg.target, uni), step, role: "snap" }).unwrap();
-        push(world, &mut lines, &mut impl_out, Line { who: Who::Model, text: format!("snap {} {}", cfg.spec, uni), step, role: "specsnap" });
+        let s = push(world, &mut lines, &mut impl_out, Line { who: Who::Both, text: format!("{} {} {}", snapc, cfg.target, uni), step, role: "snap" }).unwrap();
+        push(world, &mut lines, &mut impl_out, Line { who: Who::Model, text: format!("{} {} {}", snapc, cfg.spec, uni), step, role: "specsnap" });
         push(world, &mut lines, &mut impl_out, Line { who: Who::Both, text: format!("op {} walk s", cfg.target), step, role: "walk" });
         snap = parse_snap(&s);
         ops.push(op);
